@@ -23,8 +23,14 @@ func TestProbe(t *testing.T) {
 	insts = append(insts, fam(okamotoCase(k))[:1]...)
 	insts = append(insts, fam(elcomopCase(k))...)
 	insts = append(insts, fam(elogCase(k))[:1]...)
+	if os.Getenv("VERIF_C08_PROBE") == "heavy" {
+		insts = heavyInsts()
+	}
 	for _, n := range only(insts) {
 		for _, c := range compilers {
+			if n.heavy && compShort(c) != "FS" && os.Getenv("VERIF_C08_PROBE_ALLCOMP") == "" {
+				continue
+			}
 			t0 := time.Now()
 			p, err := n.honest(c, proverCtx(), 0)
 			tp := time.Since(t0)
@@ -36,13 +42,16 @@ func TestProbe(t *testing.T) {
 			reps := 5
 			for range reps {
 				if err := n.verify(c, verifierCtx().build(), stmtSel{}, p); err != nil {
-					t.Fatal(err)
+					fmt.Printf("%-28s %-4s HONEST PROOF REJECTED: %v\n", n.name, compShort(c), err)
+					break
 				}
 			}
 			tv := time.Since(t0) / time.Duration(reps)
-			all := len(enumerateEdits(p, bitsAll, false))
-			leaf := len(enumerateEdits(p, bitsLeaf, true))
-			fmt.Printf("%-28s %-4s len=%5d prove=%8s verify=%8s edits(all)=%6d edits(leaf,restricted)=%5d\n", n.name, compShort(c), len(p), tp.Round(time.Millisecond), tv.Round(10*time.Microsecond), all, leaf)
+			all := len(enumerateEdits(p, bitsAll, idxAll))
+			leaf := len(enumerateEdits(p, bitsLeaf, idx5))
+			tiny := len(enumerateEdits(p, bitsLSB, idx2))
+			tiny1 := len(enumerateEdits(p, bitsLSB, idx1))
+			fmt.Printf("%-28s %-4s len=%5d prove=%8s verify=%8s edits(all)=%6d (leaf,idx5)=%5d (lsb,idx2)=%4d (lsb,idx1)=%4d\n", n.name, compShort(c), len(p), tp.Round(time.Millisecond), tv.Round(10*time.Microsecond), all, leaf, tiny, tiny1)
 			if os.Getenv("VERIF_C08_PROBE") == "tree" {
 				root, _ := cbor.Parse(p)
 				s := root.String()
